@@ -163,13 +163,13 @@ func (b *BufferedBus[T]) IsEmpty() bool {
 }
 
 func (b *BufferedBus[T]) Connect(currentCycle int) {
-	if len(b.queue) == b.queueLength {
+	if len(b.queue) >= b.queueLength {
 		return
 	}
 
 	i := 0
 	for ; i < len(b.buffer); i++ {
-		if len(b.queue) == b.queueLength {
+		if len(b.queue) >= b.queueLength {
 			break
 		}
 		entry := b.buffer[i]
